@@ -361,6 +361,12 @@ func skipValue(decoder *json.Decoder) error {
 }
 
 func doGetProfileJSONTag(structType reflect.Type, structVal reflect.Value) (string, error) {
+	// an embedded interface may hold a pointer to a struct
+	if structType.Kind() == reflect.Pointer {
+		structType = structType.Elem()
+		structVal = structVal.Elem()
+	}
+
 	var foundByCBORKey *reflect.StructField
 	var foundByFieldName *reflect.StructField
 	var embeds []embedded
